@@ -26,6 +26,8 @@ RULE = ("(a) strings over ASCII incl. exception characters/spaces, Latin-1, NBSP
         "model given the real NFKD table of the string's characters; thorough sweeps all 1 112 064 scalar values through the real "
         "function. (b) random subsets of 13 vertical-metrics attributes (values incl. negatives, x.5, zero) compiled to TTF/OTF. "
         "(c) names: ASCII/accented/Cyrillic/CJK/emoji family and style names, styleMap names, versions. (d) bit lists. "
+        "(e) variable fonts whose designspace <variable-font> carries public.fontInfo overrides (incl. 0 / [] / False / '' where the "
+        "default master's value is not), TTF and CFF2, both libraries: the override must appear in the table field. "
         "Non-trivial = at least one attribute absent and one explicit (b), or a non-ASCII character (a, c).")
 ASSUMPTIONS = ["unicodedata.normalize('NFKD', c) is a function of c", "generated values are within the binary fields' ranges"]
 
